@@ -267,6 +267,25 @@ Definition step (skipgc : bool) (s : state) (e : event) : option state :=
       end
   end.
 
+(* ---------- Pool.Get / release as a reference count ----------
+   What [step] does to the [pool] field at EGet / EDone, as functions of their own: Get
+   creates the entry (a fresh, zero Merge) iff there is none; the release function of the
+   last holder removes it.  [pool_trace] replays a sequence of Get (true) / release (false)
+   in lock order and says for every Get whether a fresh Merge was created (P lines). *)
+Definition pool_get (p : option nat) : option nat * bool :=
+  match p with None => (Some 1%nat, true) | Some rc => (Some (S rc), false) end.
+Definition pool_put (p : option nat) : option nat :=
+  match p with
+  | Some rc => if Nat.leb (rc - 1) 0 then None else Some (rc - 1)%nat
+  | None => None
+  end.
+Fixpoint pool_trace (p : option nat) (ops : list bool) : list bool :=
+  match ops with
+  | [] => []
+  | true :: r => let (p', fr) := pool_get p in fr :: pool_trace p' r
+  | false :: r => pool_trace (pool_put p) r
+  end.
+
 Fixpoint run (skipgc : bool) (s : state) (tr : list event) : option state :=
   match tr with
   | [] => Some s
